@@ -25,7 +25,9 @@ class PathResult:
     node: ast.AST | None
     trail: list
 
-    def sequences(self, keep=None, extra=None):
+    def sequences(self, keep=None, extra=None, limit: int | None = None):
+        if limit is not None:
+            return expand_events(self.data.events, keep, limit=limit, extra=extra)
         return expand_events(self.data.events, keep, extra=extra)
 
     @property
